@@ -844,7 +844,7 @@ def evaluate(ctx, binp, cases, tag):
     """implementation + Coq. returns (by_id, res) with res = {M,V,KB,KC: [ids], NT: n}; plain cases and histories
     go through the same driver run and through their own correspondence functions"""
     gin = {"cases": [go_hist(ctx, c) if is_hist(c) else go_case(ctx, c) for c in cases]}
-    rc, res, raw = vlib.run_json(binp, gin, timeout=1800)
+    rc, res, raw, _loud = vlib.run_json_verbose_share(ctx, binp, gin, timeout=1800)
     if res is None:
         raise vlib.GoBuildError("./cmd/c15 (run)", raw[-3000:])
     ctx.loader_facts = res.get("facts")
